@@ -796,6 +796,17 @@ class Interp:
     def tag(self, v):
         if isinstance(v, Unk):
             return v.tag
+        if isinstance(v, MatProd):
+            return "(" + " @ ".join(self.tag(f) for f in v.factors) + ")"
+        if isinstance(v, Ref) and isinstance(self.heap.get(v.addr), AMat):
+            o = self.heap[v.addr]
+            return o.base + "".join("{" + k + "=" + self.tag(x) + "}" for k, x in o.sets)
+        if isinstance(v, Ref) and isinstance(self.heap.get(v.addr), AList) and self.heap[v.addr].items is not None:
+            return "[" + ", ".join(self.tag(x) for x in self.heap[v.addr].items) + "]"
+        if isinstance(v, (Tup, ArrV)):
+            return "(" + ", ".join(self.tag(x) for x in v.items) + ")"
+        if isinstance(v, NT):
+            return v.cls + "(" + ", ".join(self.tag(x) for x in v.items) + ")"
         if isinstance(v, Num):
             return v.p.key()
         return repr(v)
@@ -821,6 +832,10 @@ class Interp:
             f = ci.lookup(dn[1])
             if f is not None:
                 return self.call_function(f, [b, a], {}, node, dyncls=ci)
+        if isinstance(op, ast.MatMult):
+            fa = a.factors if isinstance(a, MatProd) else (a,)
+            fb = b.factors if isinstance(b, MatProd) else (b,)
+            return MatProd(tuple(fa) + tuple(fb))
         na, nb = self.as_num(a), self.as_num(b)
         if na is not None and nb is not None:
             try:
@@ -896,7 +911,7 @@ class Interp:
     def getslice(self, base, lo, hi, st, node):
         base = self.force(base)
         items = None
-        if isinstance(base, (Tup, NT)):
+        if isinstance(base, (Tup, NT, ArrV)):
             items = list(base.items)
         elif isinstance(base, Ref) and isinstance(self.deref(base), AList) and self.deref(base).items is not None:
             items = list(self.deref(base).items)
@@ -918,7 +933,7 @@ class Interp:
     def getitem(self, base, idx, node):
         base = self.force(base)
         idx = self.force(idx)
-        if isinstance(base, (Tup, NT)):
+        if isinstance(base, (Tup, NT, ArrV)):
             i = self.const_int(idx)
             if i is not None:
                 if -len(base.items) <= i < len(base.items):
@@ -1043,7 +1058,7 @@ class Interp:
     def iterate(self, it, node, star=False):
         """Concrete list of abstract elements of an iterable (forks for opaque ones)."""
         it = self.force(it)
-        if isinstance(it, (Tup, NT)):
+        if isinstance(it, (Tup, NT, ArrV)):
             return list(it.items)
         if isinstance(it, GenV):
             out = []
@@ -1222,6 +1237,10 @@ class Interp:
                 return BoundBuiltin(b, attr)
             if isinstance(o, AList):
                 return BoundBuiltin(b, attr)
+            if isinstance(o, AMat):
+                if attr == "shape":
+                    return Unk(f"{o.base}.shape")
+                return BoundBuiltin(b, attr)
         if isinstance(b, NT):
             if attr in b.names:
                 return b.get(attr)
@@ -1297,6 +1316,10 @@ class Interp:
         if isinstance(b, (Str, Bytes)) or (isinstance(b, Const) and isinstance(b.v, (str, bytes))):
             return BoundBuiltin(b, attr)
         if isinstance(b, Tup):
+            return BoundBuiltin(b, attr)
+        if isinstance(b, (MatProd, ArrV)):
+            if attr in ("shape", "size", "ndim", "T", "dtype"):
+                return Unk(f"{self.tag(b)}.{attr}")
             return BoundBuiltin(b, attr)
         if isinstance(b, Unk):
             if b.typ == "str":
@@ -1722,6 +1745,11 @@ class Interp:
             self.setattr(self.eval(t.value, fr), t.attr, v, node)
         elif isinstance(t, ast.Subscript):
             base = self.force(self.eval(t.value, fr))
+            if isinstance(base, Ref) and isinstance(self.heap.get(base.addr), AMat):
+                o = self.heap[base.addr]
+                o.sets.append((ast.unparse(t.slice), v))
+                self.emit("MUT", node, obj=base.addr, label=o.base, method="__setitem__", args=(ast.unparse(t.slice), v))
+                return
             if isinstance(t.slice, ast.Slice):
                 self.emit("MUT", node, obj=base, method="__setslice__", args=(v,))
                 return
